@@ -53,6 +53,7 @@ OBJS := $(patsubst %.cc,$(B)/sim_obj/%.o,$(SRCS)) $(B)/sim_obj/steps_asm.o
 ifeq ($(VARIANT),tsi)
 OBJS += $(B)/sim_obj/canary_tsi.o
 endif
+OBJS += $(B)/sim_obj/canary_chan.o
 INC := -I$(REPO)/src -I$(B) -Isim
 
 all: $(B)/sim
@@ -85,6 +86,11 @@ $(B)/sim_obj/%.o: sim/%.cc
 $(B)/sim_obj/steps_asm.o: sim/steps_asm.S
 	@mkdir -p $(B)/sim_obj
 	$(CC) -c $< -o $@
+
+# Instrumented like libdraco (harness-side canaries of the chan/env engines).
+$(B)/sim_obj/canary_chan.o: sim/canary_chan.cc
+	@mkdir -p $(B)/sim_obj
+	$(CXX) -std=c++17 $(LIBFLAGS_$(VARIANT)) -c $< -o $@
 
 # Instrumented like libdraco (harness-side canary for the sched engine).
 $(B)/sim_obj/canary_tsi.o: sim/canary_tsi.cc
